@@ -22,6 +22,7 @@ COUNT_FAILED = z3.Function("count_failed", SeqE, I)   # number of events whose c
 PROJ_B = z3.Function("proj_b", SeqE, SeqV)             # the `b` fields of the events, in order
 PROJ_A = z3.Function("proj_a", SeqE, SeqV)             # the `a` fields of the events, in order
 FILTER_OUT = z3.Function("filter_out", SeqV, SetV, SeqV)   # the elements of the sequence that are not in the set, in order
+BOUND_MAP = z3.Function("bound_map", Val, SeqV, SetV, MapV, MapV)   # getcallargs(f, *args, **kwargs): name -> bound value
 PARAMS_OF = z3.Function("params_of", Val, SetV)          # parameter names of a callable (inspect.signature / getcallargs)
 ALL_A = z3.Function("all_a", SeqE, Val, B)             # every event's `a` field is the given value
 ALL_B = z3.Function("all_b", SeqE, Val, B)             # every event's `b` field is the given value
@@ -35,7 +36,7 @@ class ModelMixin:
                      "ite", "unit", "is_none", "is_str", "is_int", "is_ref", "last", "ref", "allocated",
                      "held", "is_list_of_pos_int", "cls_id", "is_float", "sval", "ival", "dget", "singleton", "str", "is_bool", "is_dict", "is_list",
                      "setof", "contains", "prefix_of", "is_bytes", "is_cls", "map_int2str", "joinstr", "split", "lookup_global",
-                     "funcval", "seqmap", "extends", "only_changed", "UNSET", "unchanged", "unchanged_old", "cls_module_name", "all_reports", "empty_log", "count_failed", "suffix_of", "proj_a", "all_b", "all_tag", "card", "outside", "mro", "none_in", "is_concat", "none_missing", "is_subset", "union", "restrict", "lvk", "unlvk", "prefkeys", "setminus", "all_values", "ref_field", "handling_exception", "filter_out", "params_of", "truthy", "is_prefix", "proj_b", "all_b_not", "all_a", "all_nat", "levelstr", "ascii_ok", "bytes_of", "str_contains", "codec_facts", "is_tuple"}
+                     "funcval", "seqmap", "extends", "only_changed", "UNSET", "unchanged", "unchanged_old", "cls_module_name", "all_reports", "empty_log", "count_failed", "suffix_of", "proj_a", "all_b", "all_tag", "card", "outside", "mro", "none_in", "is_concat", "none_missing", "is_subset", "union", "restrict", "lvk", "unlvk", "prefkeys", "setminus", "all_values", "ref_field", "handling_exception", "bound_args", "setof_seq", "filter_out", "params_of", "truthy", "is_prefix", "proj_b", "all_b_not", "all_a", "all_nat", "levelstr", "ascii_ok", "bytes_of", "str_contains", "codec_facts", "is_tuple"}
 
     # ------------------------------------------------------------------ spec-mode calls
     def spec_call(self, e, st):
@@ -149,6 +150,26 @@ class ModelMixin:
             pats = [self.purify_pattern(st, p_, vars_) for p_ in pats]
             return SV("bool", z3.ForAll(vars_, body, patterns=pats) if which == "forall" else z3.Exists(vars_, body, patterns=pats))
         return SV("bool", z3.ForAll(vars_, body) if which == "forall" else z3.Exists(vars_, body))
+
+    def set_of_seq(self, st, sq):
+        """the set of the elements of a sequence, as a named set constant defined by one quantified fact (one constant per
+        sequence term, so that the code's and the contract's uses coincide syntactically)"""
+        memo = st.snap.get("$setofseq", {})
+        key = z3.simplify(sq).get_id()
+        if key in memo:
+            return memo[key]
+        kq = z3.Const("k!sos", Val)
+        ss = self.fresh("setofseq", SetV)
+        st.assume(z3.ForAll([kq], z3.Select(ss, kq) == z3.Contains(sq, z3.Unit(kq)), patterns=[z3.Select(ss, kq)]))
+        memo = dict(memo)
+        memo[key] = ss
+        st.snap["$setofseq"] = memo
+        return ss
+
+    def _bound_args(self, st, a, e):
+        d1, m1 = self.as_sdict(st, self.spec_builtin(st, "dict_of", [a[2]], e))
+        sq = self.spec_builtin(st, "seq", [a[1]], e).t
+        return SV("sdict", (PARAMS_OF(box(a[0])), BOUND_MAP(box(a[0]), sq, d1, m1)))
 
     def purify_pattern(self, st, p, bound):
         ids = {b.get_id() for b in bound}
@@ -271,6 +292,9 @@ class ModelMixin:
         if name == "keys_subset":
             d1, m1 = self.as_sdict(st, self.spec_builtin(st, "dict_of", [a[0]], e))
             return SV("bool", z3.IsSubset(d1, self.as_sset(st, a[1])))
+        if name == "setof_seq":
+            sq = self.spec_builtin(st, "seq", [a[0]], e).t
+            return SV("sset", self.set_of_seq(st, sq))
         if name == "setof":
             s = z3.K(Val, z3.BoolVal(False))
             for x in a:
@@ -298,6 +322,9 @@ class ModelMixin:
             v = a[0]
             ref = Val.rv(v.t) if v.k == "val" else v.t
             return SV("val", self.hget(st, z3.simplify(a[1].t).as_string(), ref))
+        if name == "bound_args":
+            # bound_args(f, args, kwargs): inspect.getcallargs(f, *args, **kwargs) as a dictionary value (parameter name -> bound value)
+            return self._bound_args(st, a, e)
         if name == "handling_exception":
             # static: is an exception being handled at this program point (sys.exc_info() would return it)?
             return SV("bool", z3.BoolVal(bool(st.exc_stack)))
